@@ -307,6 +307,21 @@ def law_binary(ch):
             r2 = must(fn, b, a, what=op)
             dense_equal(D.dense_of(r2, ref=_legs_ref(a)), fn(db, da),
                         op + ":commuted", what=f"b {op} a")
+    # the augmented form (a += b, a -= b, a *= b) on a fresh copy of a: it
+    # either gives the block form of the dense result or raises
+    ifn = {"add": operator.iadd, "sub": operator.isub,
+           "mul": operator.imul}[op]
+    t = gen.build(sa)
+    ok2, r = attempt(ifn, t, b)
+    if ok2:
+        require(isinstance(r, sr.AbelianArray), f"i{op}:type", f"{type(r)}")
+        require_valid(r, f"i{op}:invalid", "result")
+        require(r.charge == a.charge, f"i{op}:charge", f"{r.charge!r}")
+        dense_equal(D.dense_of(r, ref=_legs_ref(a)), fn(da, db),
+                    f"i{op}:value", what=f"a {op}= b")
+        ch.count("inplace-ok:" + op)
+    else:
+        ch.count("inplace-raised:" + op)
     ch.label(f"op={op}")
     ch.label("sectors-differ" if differ else "sectors-equal")
     ch.mark_nontrivial(differ)
